@@ -6,5 +6,5 @@ export CARGO_NET_OFFLINE=true
 python3 tools/gen_registry.py
 python3 xlate/xlate.py --repo /repo
 (cd lean && lake build GmQuic gmq_model)
-(cd harness && cargo build)
+for d in */Cargo.toml.in; do (cd "$(dirname "$d")" && cargo build); done
 echo setup-ok
